@@ -1560,6 +1560,10 @@ class ClassicChannel(utils.EventEmitter):
         )
         self._abort_connection_result()
         self._change_state(self.State.CLOSED)
+        if self.disconnection_result:
+            # We were disconnecting too: the channel is closed, that's what we wanted
+            self.disconnection_result.set_result(None)
+            self.disconnection_result = None
         self.emit(self.EVENT_CLOSE)
         self.manager.on_channel_closed(self)
 
